@@ -278,6 +278,13 @@ void observe(const std::vector<mxArray*>& outs) {
   for (auto& t : c11::trace()) { if (!tr.empty()) tr += "|"; tr += t; }
   if (tr.empty()) tr = "-";
   c11::trace().clear();
+  if (!c11::copies().empty()) {
+    // which object every copy made during this step is a copy of (checked by the harness, not by the model)
+    std::string cl = "copies ";
+    for (auto& c : c11::copies()) cl += std::to_string(c.first) + "<" + std::to_string(c.second) + ",";
+    c11::copies().clear();
+    std::puts(cl.c_str());
+  }
   std::string line = "call=" + tr + ";ret=" + retString(outs) + ";live=";
   for (int k = 0; k < kNumClasses; ++k) line += (k ? "," : "") + std::to_string(c11::live()[k]);
   line += ";coll=";
@@ -300,6 +307,12 @@ void observe(const std::vector<mxArray*>& outs) {
 mxArray* parseArg(const std::string& t) {
   if (t.empty()) throw MatlabError("empty argument");
   if (t[0] == 'i') return mxCreateDoubleScalar(std::stod(t.substr(1)));
+  if (t[0] == 'u' || t[0] == 'l') {   // uint64(n) / int64(n): what a MATLAB session passes for 64-bit keys
+    mxArray* a = mxCreateNumericMatrix(1, 1, t[0] == 'u' ? mxUINT64_CLASS : mxINT64_CLASS, mxREAL);
+    if (t[0] == 'u') *reinterpret_cast<std::uint64_t*>(mxGetData(a)) = std::stoull(t.substr(1));
+    else *reinterpret_cast<std::int64_t*>(mxGetData(a)) = std::stoll(t.substr(1));
+    return a;
+  }
   if (t[0] == 's') return mxCreateString(t.substr(1).c_str());
   if (t[0] == 'h') {
     int id = std::stoi(t.substr(1));
@@ -416,6 +429,7 @@ int main(int argc, char** argv) {
     std::vector<std::string> tok;
     { std::istringstream is(line); std::string t; while (is >> t) tok.push_back(t); }
     mock::beginOp();
+    std::puts("op");        // marks the start of the observations of one MATLAB-level operation
     try {
       execute(tok);
     } catch (const std::exception& e) {
